@@ -538,6 +538,12 @@ func c19Cosine(c *Ctx, sx *symx.Ctx) {
 			continue
 		}
 		k, ok := ssau.ConstFloat(v)
+		if ret.Block() == div.Block() || ssau.Reachable(div.Block(), ret.Block(), nil) {
+			// after the quotient was computed: it may be clamped or replaced by
+			// a constant of the cosine's range, nothing else
+			r.Check(ok && k >= -1 && k <= 1, "O-3", fk+"#after-division-exit:"+exitName(fn, ret), c.P.Pos(ret.Pos()), "returns the quotient or a constant in [-1, 1]", "after the division something other than the quotient or a constant in [-1, 1] is returned")
+			continue
+		}
 		r.Check(ok && k == 0, "O-3", fk+"#guard-exit:"+exitName(fn, ret), c.P.Pos(ret.Pos()), "guard exit returns 0", "a guard exit returns something other than the constant 0")
 	}
 	// b[i] only under len equality
